@@ -34,6 +34,10 @@ class C01(framework.PropertyCheck):
                 c['history'] = rng.randrange(1 << 30)
             if k % 5 == 2 and k % 2:
                 c['unload_first'] = True       # an id that is not loaded has been "unloaded" before the file is loaded
+            if k % 5 == 0 and k % 2:
+                c['failed_after'] = ['missing', 'ext'][(k // 10) % 2]   # a second load that fails (no such file / unknown kind) follows the load
+            if k % 5 == 3:
+                c['qualified'] = True          # every name is written with the trace id in front (one trace loaded)
             yield c
         if tier == 'thorough':
             import itertools
@@ -82,7 +86,11 @@ class C01(framework.PropertyCheck):
                          ('unload', 't0'), steps[0], steps[1]]
         if case.get('unload_first'):
             steps = [('unload', 'nosuch9')] + steps
+        if case.get('failed_after'):
+            steps = [steps[0], ('loadfail', 'q9', case['failed_after'])] + steps[1:]
         names = den['signals']
+        if case.get('qualified'):
+            names = ['t0^' + n for n in names]
         # every signal is read directly and, from the index before, through a relative read that lands on this index
         q = '(list INDEX TS ' + ' '.join(f'(get {qs(n)})' for n in names) + ')'
         qrel = '(list ' + ' '.join(f'(reval (get {qs(n)}) 1)' for n in names[:6]) + ')'
@@ -105,6 +113,11 @@ class C01(framework.PropertyCheck):
         n = len(den['timestamps'])
         if case.get('unload_first'):
             iobs = iobs[1:]
+        if case.get('failed_after'):
+            # (a file of unknown kind: the tool prints a message; whether it raises is not prescribed)
+            if len(iobs) < 2 or (case['failed_after'] == 'missing' and iobs[1][0] != 'err'):
+                return {'what': 'a load that cannot succeed did not fail', 'obs': iobs[:2]}
+            iobs = iobs[0:1] + iobs[2:]
         if case.get('history') is not None:
             if case['history'] % 3 == 2:
                 if len(iobs) < 4 or iobs[1] != ('ok',) or iobs[2][0] != 'ok' or iobs[3] != ('ok',):
